@@ -6,6 +6,7 @@ capacity ≥ 1, every start state and every finite operation sequence — no bou
 -/
 import NexoVerif.Model.Sink
 import NexoVerif.Lemmas.SinkLemmas
+import NexoVerif.Extracted
 
 namespace NexoVerif.Sink
 
@@ -128,5 +129,13 @@ example : 1 ≤ (Buf.new 2 true).cap ∧ (Buf.new 2 true).items.length ≤ (Buf.
 example : ((Slot.new true).run ([.write 1, .next] ++ [Op.write 7] ++ [.cls, .write 8])).next.2 = some 7 := by
   decide
 example : quiet true [.cls, .write 8, .opn] = true := by decide
+
+/-- **sink_writes_are_single_critical_sections** — read from the source on every run: a write to an `EventBuffer` tests
+the open flag and then, under *one* acquisition of the buffer's mutex, evicts the oldest event if the buffer is full and
+appends the new one; a write to an `EventSlot` tests the open flag and, only if the sink is open, replaces the content
+under the slot's lock.  This is what makes every write one step of M-SINK when several writers run concurrently (the
+theorems above then hold for the order in which the writers obtain the lock), and a write to a closed sink a no-op. -/
+theorem sink_writes_are_single_critical_sections :
+    Extracted.sinkBufferWriteIsOneCriticalSection = true ∧ Extracted.sinkSlotWriteIgnoredWhenClosed = true := by decide
 
 end NexoVerif.Sink
